@@ -23,7 +23,7 @@ CHECKS = {
    text="Same fault enumeration as C05 on programs that also contain block captures, let-snapshots and handlers in later steps; the oracle is an invariant over the event log of the real expansion."),
  "C03": dict(level="exploration", engine="R", design="6/C03",
    technique="property-based testing over harness-owned schedules: gated callbacks (blocking gates for threads, gate futures under a deterministic executor for async), invariant checked by the controller at every rendezvous and over the event log",
-   text="Generated programs with unequal depths run under generated schedules that the harness controls (release permutations of blocked branch threads; systematically enumerated and randomised wake-up orders of pending futures). The barrier invariant - nothing of step k+1 exists while a branch is still inside step k, the macro has not returned - is evaluated while the controller knows exactly who is blocked, so it cannot fire on a correct barrier whatever the timing. Interleavings inside the macro's own glue code are not controlled."),
+   text="Generated programs with unequal depths run under generated schedules that the harness controls (release permutations of blocked branch threads; systematically enumerated and randomised wake-up orders of pending futures). The barrier invariant - nothing of step k+1 exists while a branch is still inside step k, the macro has not returned - is evaluated while the controller knows exactly who is blocked, so it cannot fire on a correct barrier whatever the timing. Interleavings inside the macro's own glue code are not controlled. Stage 2 (typed chains): 2-4 branches over all 22 operator spellings with `~` in front of half of the operators (operand-less ones and wrappers included) under the non-try macros; the documented chains are evaluated step by step across the branches with a mark between steps, and the macro's global event sequence must never go back to an earlier step."),
  "C07": dict(level="exploration", engine="R", design="6/C07",
    technique="metamorphic property-based testing: the same generated program rendered under the three macro names of its class, results / callback sequences / concurrency signatures compared with each other (no model)",
    text="Each generated program is compiled under plain, spawn and alias macro names and run under identical enumerated failure plans; the oracle is agreement among the three (results; per-branch callback sequences; thread-name signature; first-poll arrival count distinguishing spawned from inline futures), plus type ascription of the expected result type; a child-process run in which every callback uses 256 KiB of stack must complete under all three names or under none. Stage 2 (typed chains): values that are Send but not Sync under the eight spawning macros against a reference that requires Send + 'static only."),
